@@ -243,6 +243,9 @@ pub const DOCS: &[&str] = &[
     "third.asm",
     "mos.toml",
     "untitled:Untitled-1",
+    // a new document the editor has already given a name in the project directory, not saved yet: same path
+    // component as the entry point, another document
+    "untitled:/ws/main.asm",
 ];
 
 pub const TOML_VARIANTS: &[&str] = &[
@@ -258,7 +261,7 @@ pub const TOML_VARIANTS: &[&str] = &[
 
 pub fn variants_of(file: &str) -> &'static [&'static str] {
     match file {
-        "main.asm" => MAIN_VARIANTS,
+        "main.asm" | "untitled:/ws/main.asm" => MAIN_VARIANTS,
         "other.asm" => OTHER_VARIANTS,
         "mos.toml" => TOML_VARIANTS,
         _ => THIRD_VARIANTS,
